@@ -109,15 +109,7 @@ def observe (s : Node) : String :=
 def runInput (st : St) (i : Input) : Option St × String :=
   if st.s.halted then (some st, "halted") else
   let s' := handle st.k st.s i
-  if s'.halted then
-    let cls := match i with
-      | .peer (.vote v) _ _ => if v.height + 1 = st.s.height then "lastcommit-nil" else "invalid-block"
-      | .internal =>
-        match st.s.queue with
-        | .vote v :: _ => if v.height + 1 = st.s.height then "lastcommit-nil" else "invalid-block"
-        | _ => "invalid-block"
-      | _ => "invalid-block"
-    (some { st with s := s' }, "panic:" ++ cls)
+  if s'.halted then (some { st with s := s' }, "panic:invalid-block")
   else (some { st with s := s' }, observe s')
 
 def step (st? : Option St) (t : List String) : Option St × String :=
